@@ -75,12 +75,15 @@ async fn client_main(ctx: Ctx, io: PipeEnd, sc: Rc<Scenario>, ctl: ConnCtlRef, s
     }
 }
 
-fn pending_ops(from: usize) -> usize {
+/// Outstanding operations; `stream_only` ignores the connection-lifetime ones (connection future, accept loop).
+fn pending_ops_of(stream_only: bool) -> usize {
     sim::with(|w| {
         let mut open = std::collections::BTreeSet::new();
-        let _ = from;
         for e in &w.trace.evs {
             if let EvK::Api(a) = &e.k {
+                if stream_only && matches!(a.op, Op::ConnDone | Op::Accept) {
+                    continue;
+                }
                 if a.op_id != 0 {
                     match a.phase {
                         Phase::Call => {
@@ -97,6 +100,15 @@ fn pending_ops(from: usize) -> usize {
     })
 }
 
+/// every application task ran to completion, i.e. every stream handle has been dropped
+fn all_app_tasks_done() -> bool {
+    sim::with(|w| w.tasks.iter().all(|t| t.done || t.kind == TaskKind::Conn))
+}
+
+fn pending_ops(_from: usize) -> usize {
+    pending_ops_of(false)
+}
+
 /// C19: at a quiescent point with every stream finished and all stream handles dropped.
 fn check_forgotten(side: Side, hook: &SnapHook, expect_refs: Option<usize>, out: &mut Vec<Violation>, stats: &mut Stats) {
     let st = hook.0.borrow();
@@ -110,7 +122,7 @@ fn check_forgotten(side: Side, hook: &SnapHook, expect_refs: Option<usize>, out:
         out.push(Violation::new(
             "C19",
             "stream-retained-after-close-and-drop",
-            format!("{}: {} stream records retained outside the reset memory: {:?}", side.name(), retained.len(), retained.iter().map(|x| (x.id, x.state.clone(), x.ref_count, x.is_counted, x.is_pending_accept, x.is_pending_send, x.is_pending_open, x.is_pending_push)).collect::<Vec<_>>()),
+            format!("{}: {} stream records retained outside the reset memory: {:?}", side.name(), retained.len(), retained.iter().map(|x| format!("stream {} {} refs={} counted={} queues[accept={} send={} send_capacity={} open={} push={} window_update={}] pending_send_empty={} pending_recv_empty={} in_flight_recv={}", x.id, x.state, x.ref_count, x.is_counted, x.is_pending_accept, x.is_pending_send, x.is_pending_send_capacity, x.is_pending_open, x.is_pending_push, x.is_pending_window_update, x.pending_send_empty, x.pending_recv_empty, x.in_flight_recv_data)).collect::<Vec<_>>()),
         ));
     }
     let in_reset_memory = s.streams.len() - retained.len();
@@ -155,6 +167,8 @@ pub fn run_scenario(sc: &Scenario) -> Outcome {
     sim::with(|w| {
         w.inject_prob = (sc.inject.0, sc.inject.1);
         w.inject_max = sc.inject.2;
+        // cooperative worlds close politely: bytes written to a departed peer vanish instead of failing
+        w.gone_write_err = if sc.coop { (0, 1) } else { (1, 2) };
         let mut p = PipeState::new(0, sc.prof[0].clone(), sc.prof[1].clone());
         for f in &sc.faults {
             p.dirs[f.dir].fault = Some(*f);
@@ -189,7 +203,7 @@ pub fn run_scenario(sc: &Scenario) -> Outcome {
     // ---- C19: mid-scenario quiescence with the connection alive, then a second wave
     if keep && end == RunEnd::Quiescent {
         let alive = !client_ctl.borrow().done && !server_ctl.borrow().done && keeper.borrow().is_some();
-        if alive && pending_ops(0) <= 2 {
+        if alive && pending_ops_of(true) == 0 && all_app_tasks_done() {
             // refresh snapshots: one more poll of both connection tasks
             send_cmd(&client_ctl, ConnCmd::Op(ConnOpKind::Nop));
             send_cmd(&server_ctl, ConnCmd::Op(ConnOpKind::Nop));
@@ -202,7 +216,7 @@ pub fn run_scenario(sc: &Scenario) -> Outcome {
                 let done = Rc::new(RefCell::new(0u32));
                 sim::spawn("client-req-wave2", TaskKind::App, client_requester(cctx.clone(), sr, sc.second_wave.clone(), done));
                 end = sim::run(sc.max_steps);
-                if end == RunEnd::Quiescent && !client_ctl.borrow().done && !server_ctl.borrow().done && pending_ops(0) <= 2 {
+                if end == RunEnd::Quiescent && !client_ctl.borrow().done && !server_ctl.borrow().done && pending_ops_of(true) == 0 && all_app_tasks_done() {
                     send_cmd(&client_ctl, ConnCmd::Op(ConnOpKind::Nop));
                     send_cmd(&server_ctl, ConnCmd::Op(ConnOpKind::Nop));
                     end = sim::run(sc.max_steps);
@@ -221,7 +235,10 @@ pub fn run_scenario(sc: &Scenario) -> Outcome {
         if let Some(k) = k {
             let id = sim::with(|w| w.trace.next_op_id());
             log_api(0, Side::Client, Op::DropSendRequest, Phase::Call, id, Res::None);
-            drop(k);
+            if let Err(p) = catch_unwind(AssertUnwindSafe(move || drop(k))) {
+                let msg = if let Some(s) = p.downcast_ref::<&str>() { s.to_string() } else if let Some(s) = p.downcast_ref::<String>() { s.clone() } else { "?".into() };
+                sim::with(|w| w.stats.panics.push(format!("drop of last SendRequest: {}", msg)));
+            }
             log_api(0, Side::Client, Op::DropSendRequest, Phase::Ret, id, Res::Ok);
         }
         if end == RunEnd::Quiescent {
@@ -238,6 +255,35 @@ pub fn run_scenario(sc: &Scenario) -> Outcome {
         let _ = sim::run(200_000);
         let after = pending_ops(0);
         notes.push(format!("triage: {} operations pending at quiescence; after waking every task once: {} ({})", pend, after, if after < pend { "lost wakeup suspected" } else { "accounting stall" }));
+        sim::with(|w| {
+            for d in 0..2 {
+                notes.push(format!("pipe dir {}: {}", d, w.pipes[0].dirs[d].debug_state()));
+            }
+            for t in &w.tasks {
+                if !t.done {
+                    notes.push(format!("task not finished: {} (polls {})", t.name, t.polls));
+                }
+            }
+        });
+        for (hook, name) in [(&chook, "client"), (&shook, "server")] {
+            if let Some(s) = &hook.0.borrow().last {
+                notes.push(format!(
+                    "h2 state {}: send conn window={} available={} | recv conn window={} available={} in_flight={} | queues: pending_send_empty={} pending_capacity_empty={} pending_open_empty={} pending_wu_empty={} | has_task={} err={:?} | counts: send {}/{} recv {}/{} local_reset {}/{} slab={} ids={}",
+                    name, s.send.conn_window, s.send.conn_available, s.recv.conn_window, s.recv.conn_available, s.recv.in_flight_data,
+                    s.send.pending_send_empty, s.send.pending_capacity_empty, s.send.pending_open_empty, s.recv.pending_window_updates_empty, s.has_task, s.conn_error,
+                    s.counts.num_send_streams, s.counts.max_send_streams, s.counts.num_recv_streams, s.counts.max_recv_streams, s.counts.num_local_reset_streams, s.counts.max_local_reset_streams, s.slab_len, s.ids_len
+                ));
+                for x in &s.streams {
+                    notes.push(format!(
+                        "  stream {} {} refs={} counted={} send(win={} avail={} req={} buf={} inc={}) recv(win={} avail={} in_flight={} is_recv={}) q(send={} cap={} open={} wu={} accept={}) tasks(send={} recv={} push={}) pending_send_empty={} pending_recv_empty={}",
+                        x.id, x.state, x.ref_count, x.is_counted, x.send_window, x.send_available, x.requested_send_capacity, x.buffered_send_data, x.send_capacity_inc,
+                        x.recv_window, x.recv_available, x.in_flight_recv_data, x.is_recv,
+                        x.is_pending_send, x.is_pending_send_capacity, x.is_pending_open, x.is_pending_window_update, x.is_pending_accept,
+                        x.has_send_task, x.has_recv_task, x.has_push_task, x.pending_send_empty, x.pending_recv_empty
+                    ));
+                }
+            }
+        }
         stats.inc(if after < pend { "triage.lost_wakeup" } else { "triage.stall" });
     }
 
@@ -323,6 +369,12 @@ pub fn run_scenario(sc: &Scenario) -> Outcome {
         evs[start..].iter().map(|e| fmt_ev(&w, e)).collect()
     };
     // dropping the world drops every still-pending future and handle: run h2's Drop impls under a catcher
+    // (not after a panic inside h2: its locks are poisoned and every destructor would panic again)
+    if w.poisoned {
+        std::mem::forget(w);
+        std::mem::forget(keeper);
+        return Outcome { violations, notes, stats, fp: fp.0, nontrivial, quiescent, steps_exhausted: !quiescent, trace_tail };
+    }
     let r = catch_unwind(AssertUnwindSafe(move || drop(w)));
     if let Err(p) = r {
         let msg = if let Some(s) = p.downcast_ref::<&str>() { s.to_string() } else if let Some(s) = p.downcast_ref::<String>() { s.clone() } else { "?".into() };
